@@ -396,6 +396,13 @@ func run(s Script, v *vt.V) {
 				return
 			}
 			gotErr = errs[0]
+			// the same sequence run again says the same thing (an unset method does not turn into
+			// an empty successful listing the second time round)
+			_, errs2, n2 := drainSeq(o)
+			if n2 != 1 || errs2[0] == nil || errs2[0].Error() != errs[0].Error() {
+				v.Failf("unset-seq-shape", "%s unset: the returned iterator, run a second time, called its consumer %d times with errors %v (first run: once, with %v)", fd.method, n2, errs2, errs[0])
+				return
+			}
 		default:
 			if !o.IsZero() {
 				v.Failf("unset-nonzero", "%s unset: non-zero result %d: %v", fd.method, i, o)
